@@ -19,12 +19,25 @@ Record flags := mkFlags {
 }.
 Definition flags0 := mkFlags false false false false false.
 
+(* Exception classes an on_log callback may raise, as far as the client's except clauses tell them apart:
+   anything the client never catches (ValueError, RuntimeError, ...), a plain OSError, an RpcError, pa.ArrowInvalid. *)
+Inductive xcls := XPlain | XOs | XRpc | XArrow.
+
+(* The drain loop at the end of StreamSession.close() / .cancel(): which exception classes it swallows, and
+   whether _drained is set to True although the loop was ended by a swallowed exception (and not by the
+   end-of-stream marker). *)
+Record drains := mkDrains {
+  d_close_swallow : xcls -> bool; d_close_mark : bool;
+  d_cancel_swallow : xcls -> bool; d_cancel_mark : bool
+}.
+
 (* Source-derived decisions (regenerated from the source by translate/t_c32_guards.py, see tie/T_Pool.v). *)
 Record cfg := mkCfg {
   c_abandoned : flags -> bool;       (* the [stream_abandoned = ...] expression of _PooledTransport.close *)
   c_discard   : bool -> nat -> bool; (* _return_worker, under the lock: discard instead of pooling (closed, max_idle) *)
   c_evict     : nat -> nat -> bool;  (* _return_worker: evict the oldest first (total_idle, max_idle)      *)
-  c_track     : bool                 (* the client maintains _call_in_flight and _drained                   *)
+  c_track     : bool;                (* the client maintains _call_in_flight and _drained                   *)
+  c_drains    : drains               (* what the drain loops of StreamSession.close() / cancel() swallow       *)
 }.
 
 (* ------------------------------------------------------------------------------------------------ *)
@@ -176,14 +189,16 @@ Fixpoint idle_reap (now timeout : nat) (d : idict) : list nat * idict :=
 (* Borrower scripts.  The worker service answers every read position with LOGS = 2 log batches in    *)
 (* front of the data batch; the on_log callback raises at the invocation numbers in [b_raise].       *)
 Definition LOGS := 2.
-Inductive op := OUnary | OOpen (managed : bool) | OTick | OClose.
+Inductive op := OUnary | OOpen (managed : bool) | OTick | OClose | OCancel.
 
 Inductive bpc :=
 | BStart | BLock | BSpawn | BSpawnFail | BCount | BUse
 | BRetPoll (ab : bool) | BRetDead | BRetAb | BRetLock | BDone.
 
+Definition raises := list (nat * xcls).     (* callback invocation number -> class of the exception raised there *)
+
 Record borrower := mkB {
-  b_pc : bpc; b_key : nat; b_spawn_ok : bool; b_ops : list op; b_raise : list nat;
+  b_pc : bpc; b_key : nat; b_spawn_ok : bool; b_ops : list op; b_raise : raises;
   b_cbn : nat;                  (* callback invocations so far *)
   b_pid : option nat;           (* the worker this borrower holds *)
   b_fl : flags;
@@ -193,7 +208,7 @@ Inductive rpc := RWait | RLock (now : nat) | RDone.
 Inductive cpc := CStart | CJoin | CCollect | CDone.
 Inductive thread := TB (b : borrower) | TR (r : rpc) | TC (c : cpc).
 
-Inductive spec := SB (key : nat) (spawn_ok : bool) (ops : list op) (raise_at : list nat) | SR | SC.
+Inductive spec := SB (key : nat) (spawn_ok : bool) (ops : list op) (raise_at : raises) | SR | SC.
 Definition init_thread (s : spec) : thread :=
   match s with
   | SB k ok ops ra => TB (mkB BStart k ok ops ra 0 None flags0 None)
@@ -201,13 +216,21 @@ Definition init_thread (s : spec) : thread :=
   | SC => TC CStart
   end.
 
-(* deliver up to n log batches to the callback; returns (batches consumed, raised?) *)
-Fixpoint read_logs (n cbn : nat) (raise_at : list nat) : nat * bool :=
+Fixpoint find_raise (cbn : nat) (ra : raises) : option xcls :=
+  match ra with
+  | [] => None
+  | (i, x) :: r => if Nat.eqb cbn i then Some x else find_raise cbn r
+  end.
+
+(* deliver up to n log batches to the callback; returns (batches consumed, class raised if any) *)
+Fixpoint read_logs (n cbn : nat) (ra : raises) : nat * option xcls :=
   match n with
-  | O => (0, false)
+  | O => (0, None)
   | S m =>
-      if existsb (Nat.eqb cbn) raise_at then (1, true)
-      else let '(c, r) := read_logs m (S cbn) raise_at in (S c, r)
+      match find_raise cbn ra with
+      | Some x => (1, Some x)
+      | None => let '(c, r) := read_logs m (S cbn) ra in (S c, r)
+      end
   end.
 
 Definition fl_inflight (tr : bool) (v : bool) (f : flags) :=
@@ -222,21 +245,42 @@ Definition fl_sdrained (f : flags) := mkFlags (f_inflight f) (f_opened f) (f_has
 (* the part of a borrower the client code works on *)
 Record ustate := mkU { u_conn : conn; u_fl : flags; u_open : option bool; u_cbn : nat }.
 
-(* StreamSession.close() on an open session; returns (state, raised?) *)
-Definition do_close (tr alive : bool) (ra : list nat) (u : ustate) : ustate * bool :=
+(* the drain loop of close() / cancel() with n log batches in front of the end-of-stream marker;
+   [fl] already has _closed set; returns (state, did an exception escape?) *)
+Definition do_drain (swallow : xcls -> bool) (mark : bool) (n : nat) (ra : raises) (fl : flags) (cbn : nat)
+  : ustate * bool :=
+  let '(c, r) := read_logs n cbn ra in
+  match r with
+  | None => (mkU Boundary (fl_sdrained fl) None (cbn + c), false)        (* StopIteration: end of stream read *)
+  | Some x =>
+      if swallow x
+      then (mkU Dirty (if mark then fl_sdrained fl else fl) None (cbn + c), false)   (* loop ended early, silently *)
+      else (mkU Dirty fl None (cbn + c), true)
+  end.
+
+(* StreamSession.close() on an open session *)
+Definition do_close (tr : bool) (D : drains) (alive : bool) (ra : raises) (u : ustate) : ustate * bool :=
   let fl := fl_sclosed tr (u_fl u) in
   if negb alive then (mkU Dirty fl None (u_cbn u), true)            (* writing the EOS fails *)
   else match u_conn u with
-       | Sync => (mkU Boundary (fl_sdrained fl) None (u_cbn u), false)
-       | Pending k =>
-           let '(c, r) := read_logs k (u_cbn u) ra in
-           if r then (mkU Dirty fl None (u_cbn u + c), true)
-           else (mkU Boundary (fl_sdrained fl) None (u_cbn u + c), false)
+       | Sync => do_drain (d_close_swallow D) (d_close_mark D) 0 ra fl (u_cbn u)
+       | Pending k => do_drain (d_close_swallow D) (d_close_mark D) k ra fl (u_cbn u)
        | _ => (mkU Dirty fl None (u_cbn u), true)
        end.
 
-(* one operation of the script; returns (state, raised?) *)
-Definition do_op (tr alive : bool) (ra : list nat) (o : op) (u : ustate) : ustate * bool :=
+(* StreamSession.cancel() on an open session: the server's on_cancel hook logs LOGS times before the stream ends;
+   a failing write is swallowed (cancel is best-effort) *)
+Definition do_cancel (tr : bool) (D : drains) (alive : bool) (ra : raises) (u : ustate) : ustate * bool :=
+  let fl := fl_sclosed tr (u_fl u) in
+  if negb alive then (mkU Dirty fl None (u_cbn u), false)
+  else match u_conn u with
+       | Sync => do_drain (d_cancel_swallow D) (d_cancel_mark D) LOGS ra fl (u_cbn u)
+       | Pending k => do_drain (d_cancel_swallow D) (d_cancel_mark D) (k + LOGS) ra fl (u_cbn u)
+       | _ => (mkU Dirty fl None (u_cbn u), false)
+       end.
+
+(* one operation of the script; returns (state, did an exception escape?) *)
+Definition do_op (tr : bool) (D : drains) (alive : bool) (ra : raises) (o : op) (u : ustate) : ustate * bool :=
   match o with
   | OUnary =>
       match u_open u with
@@ -247,8 +291,11 @@ Definition do_op (tr alive : bool) (ra : list nat) (o : op) (u : ustate) : ustat
           else match u_conn u with
                | Boundary =>
                    let '(c, r) := read_logs LOGS (u_cbn u) ra in
-                   if r then (mkU Dirty fl1 None (u_cbn u + c), true)
-                   else (mkU Boundary (u_fl u) None (u_cbn u + c), false)
+                   match r with
+                   | None => (mkU Boundary (u_fl u) None (u_cbn u + c), false)
+                   | Some XRpc => (mkU Boundary (u_fl u) None (u_cbn u + c), true)   (* _read_unary_response drains, mark restored *)
+                   | Some _ => (mkU Dirty fl1 None (u_cbn u + c), true)
+                   end
                | _ => (mkU Dirty fl1 None (u_cbn u), true)
                end
       end
@@ -263,8 +310,10 @@ Definition do_op (tr alive : bool) (ra : list nat) (o : op) (u : ustate) : ustat
             match u_conn u with
             | Boundary =>
                 let '(c, r) := read_logs LOGS (u_cbn u) ra in
-                if r then (mkU Dirty fl1 None (u_cbn u + c), true)
-                else (mkU Sync (fl_new_sess (fl_opened (u_fl u))) (Some m) (u_cbn u + c), false)
+                match r with
+                | Some _ => (mkU Dirty fl1 None (u_cbn u + c), true)
+                | None => (mkU Sync (fl_new_sess (fl_opened (u_fl u))) (Some m) (u_cbn u + c), false)
+                end
             | _ => (mkU Dirty fl1 None (u_cbn u), true)
             end
       end
@@ -276,22 +325,33 @@ Definition do_op (tr alive : bool) (ra : list nat) (o : op) (u : ustate) : ustat
           else match u_conn u with
                | Sync =>
                    let '(c, r) := read_logs LOGS (u_cbn u) ra in
-                   if r then (mkU (Pending (LOGS - c)) (u_fl u) (Some m) (u_cbn u + c), true)
-                   else (mkU Sync (u_fl u) (Some m) (u_cbn u + c), false)
+                   match r with
+                   | None => (mkU Sync (u_fl u) (Some m) (u_cbn u + c), false)
+                   | Some XRpc =>                                   (* except RpcError: self.close(); raise *)
+                       (fst (do_close tr D alive ra (mkU (Pending (LOGS - c)) (u_fl u) (Some m) (u_cbn u + c))), true)
+                   | Some XArrow =>                                 (* transport error: _closed = True, no drain *)
+                       (mkU Dirty (fl_sclosed tr (u_fl u)) None (u_cbn u + c), true)
+                   | Some _ => (mkU (Pending (LOGS - c)) (u_fl u) (Some m) (u_cbn u + c), true)
+                   end
                | _ => (mkU Dirty (u_fl u) (Some m) (u_cbn u), true)
                end
       end
   | OClose =>
       match u_open u with
       | None => (u, true)
-      | Some _ => do_close tr alive ra u
+      | Some _ => do_close tr D alive ra u
+      end
+  | OCancel =>
+      match u_open u with
+      | None => (u, true)
+      | Some _ => do_cancel tr D alive ra u
       end
   end.
 
 (* leaving the with-blocks: a managed session that is still open is closed *)
-Definition do_exit (tr alive : bool) (ra : list nat) (u : ustate) : ustate :=
+Definition do_exit (tr : bool) (D : drains) (alive : bool) (ra : raises) (u : ustate) : ustate :=
   match u_open u with
-  | Some true => fst (do_close tr alive ra u)
+  | Some true => fst (do_close tr D alive ra u)
   | _ => u
   end.
 
@@ -339,14 +399,14 @@ Section Step.
             let alive := alive_of g p in
             let u := mkU (conn_of g p) (b_fl b) (b_open b) (b_cbn b) in
             let finish (u : ustate) :=
-              let u' := do_exit (c_track C) alive (b_raise b) u in
+              let u' := do_exit (c_track C) (c_drains C) alive (b_raise b) u in
               let ab := if alive then c_abandoned C (u_fl u') else true in
               (set_conn p (u_conn u') g,
                mkB (BRetPoll ab) (b_key b) (b_spawn_ok b) [] (b_raise b) (u_cbn u') (b_pid b) (u_fl u') (u_open u')) in
             match b_ops b with
             | [] => finish u
             | o :: rest =>
-                let '(u1, raised) := do_op (c_track C) alive (b_raise b) o u in
+                let '(u1, raised) := do_op (c_track C) (c_drains C) alive (b_raise b) o u in
                 if raised then finish u1
                 else (set_conn p (u_conn u1) g,
                       mkB BUse (b_key b) (b_spawn_ok b) rest (b_raise b) (u_cbn u1) (b_pid b) (u_fl u1) (u_open u1))
@@ -438,8 +498,13 @@ Definition abandoned_fixed (f : flags) : bool :=
   f_inflight f || (f_opened f && (negb (f_has_sess f) || negb (f_sclosed f) || negb (f_sdrained f))).
 Definition abandoned_old (f : flags) : bool :=
   f_opened f && (negb (f_has_sess f) || negb (f_sclosed f)).
-Definition cfg_fixed := mkCfg abandoned_fixed (fun closed m => closed || Nat.eqb m 0) (fun total m => Nat.leb m total) true.
-Definition cfg_old := mkCfg abandoned_old (fun closed _ => closed) (fun total m => Nat.leb m total) false.
+Definition swallow_listed (x : xcls) : bool := match x with XPlain => false | _ => true end.   (* suppress(StopIteration, RpcError, pa.ArrowInvalid, OSError) *)
+Definition drains_fixed := mkDrains swallow_listed false swallow_listed false.   (* _drained only when the end-of-stream marker was read *)
+Definition drains_marking := mkDrains swallow_listed true swallow_listed true.   (* _drained = True after the loop, however it ended *)
+Definition cfg_fixed := mkCfg abandoned_fixed (fun closed m => closed || Nat.eqb m 0) (fun total m => Nat.leb m total) true drains_fixed.
+(* the source after the taint repair (b37b74b) but with the unconditional _drained = True *)
+Definition cfg_marking := mkCfg abandoned_fixed (fun closed m => closed || Nat.eqb m 0) (fun total m => Nat.leb m total) true drains_marking.
+Definition cfg_old := mkCfg abandoned_old (fun closed _ => closed) (fun total m => Nat.leb m total) false drains_marking.
 
 (* ------------------------------------------------------------------------------------------------ *)
 (* Observation of a state, for the step-by-step comparison with the real pool (props/C32.py).        *)
@@ -468,7 +533,6 @@ Definition obs (s : state) : list (list nat) :=
 Definition clean_obs (s : state) : list bool := map (fun w => w_alive w && conn_clean (w_conn w)) (g_workers (fst s)).
 
 Definition case_in := ((nat * nat) * list spec * list sid)%type.      (* (max_idle, timeout), threads, schedule *)
-Definition sel_cfg (track : bool) (gen : cfg) : cfg := mkCfg (c_abandoned gen) (c_discard gen) (c_evict gen) track.
 Definition run_case_with (C : cfg) (inp : case_in) : list (list (list nat) * list bool) :=
   let '((m, t), specs, sch) := inp in
   map (fun s => (obs s, clean_obs s)) (trace C m t (init specs) sch).
